@@ -22,7 +22,7 @@ ASSUMPTIONS = ["tolerance 1e-9 * (1 + max |control point coordinate|) * |directi
 def _hull_cases(draw, tier):
     big = tier == "thorough"
     d = draw(gen.spline(max_p=5 if big else 4, max_extra=5 if big else 4, unclamped="maybe", affine_range="maybe",
-                        normalize="maybe", vol_max_p=3, vol_max_extra=2))
+                        normalize="maybe", vol_max_p=3, vol_max_extra=2, micro=True))
     pdim = len(d["degree"])
     prm = draw(st.lists(gen.params(pdim), min_size=1, max_size=4))
     dirs = [[draw(st.integers(-16, 16)) / 8.0 for _ in range(d["dim"])] for _ in range(6)]
@@ -103,7 +103,10 @@ def check_hull(case, ctx):
 @st.composite
 def _length_cases(draw, tier):
     d = draw(gen.spline(kinds=("curve",), rational=False, max_p=5, max_extra=6, unclamped="maybe", affine_range="maybe", normalize="maybe"))
-    return {"defn": d, "n": draw(st.integers(2, 40))}
+    sc = draw(st.sampled_from([0, 0, 0, -20, -26, 14]))          # exact power-of-two scaling: tiny and large geometry
+    if sc:
+        d["P"] = [[c * 2.0 ** sc for c in p] for p in d["P"]]
+    return {"defn": d, "n": draw(st.integers(2, 40)), "scale_exp": sc}
 
 
 def check_length(case, ctx):
@@ -117,7 +120,8 @@ def check_length(case, ctx):
     (a, b), = R.domain()
     pa, pb = R.point([a])[0], R.point([b])[0]
     chord = math.sqrt(float(sum((x - y) ** 2 for x, y in zip(pa, pb))))
-    big = 1.0 + max(abs(c) for p in P for c in p)
+    big = max(abs(c) for p in P for c in p)          # tolerances are relative to the size of the geometry
+    ctx.label("scaled-geometry", bool(case.get("scale_exp")))
     ctx.nt(d.get("unclamped", False), "unclamped")
     ctx.nt(build.has_repeated_interior(d), "repeated-knot")
     ctx.nt(case["n"] >= 10, "fine-sampling")
